@@ -8,9 +8,22 @@ TRUSTED_BASE = [
     'third-party contracts (modelled by contract): bbolt/badger as ordered maps with atomic isolated transactions; msgpack, gob, encoding/json as faithful round-trips; google/orderedcode re-implemented byte for byte and compared on every index key; regexp restricted to the modelled sub-language; uuid.FromString as a predicate',
 ]
 
-HIST = lambda name, q, t, args=None: {'name': name, 'cmd': 'hist', 'quick': q, 'thorough': t, 'args': ['--backend', 'all'] + (args or [])}
+HIST = lambda name, q, t, args=None: {'name': name, 'cmd': 'hist', 'quick': q, 'thorough': t, 'args': (args or []) if '--backend' in (args or []) else ['--backend', 'all'] + (args or [])}
 
 PROPS = {
+    'C01': {
+        'streams': [HIST('hist', 120, 1500), HIST('hist_index', 80, 1000, ['--focus', 'index'])],
+        'assumptions': ['values in the supported domain, no NaN; names without ";"; canonical 36-character ids; Like patterns restricted to the modelled regexp sub-language in runs; for planner soundness: one numeric regime (integers beyond 2^53 not mixed with floats)'],
+    },
+    'C02': {
+        'streams': [{'name': 'twin', 'quick': 8, 'thorough': 80, 'args': ['--backend', 'all']}, HIST('hist_index', 60, 800, ['--focus', 'index'])],
+        'assumptions': ['indexed values inside key_dom (numbers within 2^53, times 1970..2262): outside it index keys do not sort like compare (known finding K-float-key, C10_key_order_outside_dom_refuted)',
+                        'for an unsorted skip/limit window the property promises a count, not an identity (C08): twins are compared on counts there'],
+    },
+    'C03': {
+        'streams': [{'name': 'scale', 'quick': 1, 'thorough': 3, 'args': ['--backend', 'all']}, HIST('hist_bulk', 80, 1000, ['--focus', 'bulk'])],
+        'assumptions': ['the behaviour of a live bbolt/badger cursor under mutation is outside the model (snapshot cursors); the scale runs tie that assumption to the code'],
+    },
     'C04': {
         'streams': [{'name': 'fault', 'quick': 3, 'thorough': 25, 'args': ['--backend', 'all']}],
         'assumptions': ['fault points = every store call the operation makes through the store interface (begin, get, set, delete, cursor, cursor item read, commit); Seek/Next/Valid/Rollback/Close cannot fail in either adapter',
@@ -21,6 +34,23 @@ PROPS = {
                     {'name': 'hist_reopen', 'cmd': 'hist', 'quick': 30, 'thorough': 300, 'args': ['--backend', 'bbolt,badgerdisk', '--focus', 'reopen']}],
         'assumptions': ['the store commit itself is atomic and durable (bbolt meta-page swap + fsync, badger WAL): premise, not provable here; fsync, power loss and torn pages are outside the model and outside what a process kill exercises'],
     },
+    'C06': {
+        'streams': [HIST('hist', 120, 1500), HIST('hist_catalog', 60, 600, ['--focus', 'catalog']), {'name': 'scale', 'quick': 1, 'thorough': 3, 'args': ['--backend', 'all']}],
+        'assumptions': ['names without ";", canonical ids'],
+    },
+    'C07': {
+        'streams': [{'name': 'conc', 'quick': 25, 'thorough': 400, 'args': ['--backend', 'all']}],
+        'race': True,
+        'assumptions': ['partial: the theorem covers the transaction-structure logic (every operation is one store transaction under single-writer / snapshot-reader discipline); data races, the Go memory model, goroutine scheduling and badger conflict detection cannot be exhibited by an executable Gallina model and are covered by the harness only (-race build, perturbed schedules, linearizability search)'],
+    },
+    'C08': {
+        'streams': [HIST('hist_sort', 120, 1500, ['--focus', 'sort'])],
+        'assumptions': ['sortedness inside one numeric regime (integers beyond 2^53 not mixed with floats: otherwise compare is not transitive, C08 needs C10); ties (compare-equal keys, absent vs nil) are free'],
+    },
+    'C09': {
+        'streams': [HIST('hist', 120, 1500), HIST('hist_sort', 60, 600, ['--focus', 'sort'])],
+        'assumptions': ['"does not alter the query object" is about aliasing: immutable Gallina values make it true by construction in the model; that clause is covered by the harness snapshot of query getters only'],
+    },
     'C10': {
         'streams': [{'name': 'c10', 'quick': 40, 'thorough': 600}],
         'assumptions': ['no NaN; transitivity on triples where integers beyond 2^53 are not mixed with floats (cmp_dom3); key-order agreement inside key_dom: numbers within 2^53, times 1970..2262'],
@@ -29,33 +59,66 @@ PROPS = {
         'streams': [{'name': 'c11', 'quick': 40, 'thorough': 400, 'args': ['--backend', 'all']}],
         'assumptions': ['msgpack and gob are identities on wire values (contract; exercised by every read-back)'],
     },
+    'C12': {
+        'streams': [HIST('hist_ids', 120, 1500, ['--focus', 'ids'])],
+        'assumptions': ['canonical ids in the theorems (uuid.FromString also accepts braced/urn/32-hex forms, outside the property domain)'],
+    },
+    'C13': {
+        'streams': [HIST('hist_catalog', 120, 1500, ['--focus', 'catalog'])],
+        'assumptions': ['names free of ";" (valid UTF-8 in runs, because the metadata record is JSON)'],
+    },
+    'C14': {
+        'streams': [HIST('hist_catalog', 100, 1200, ['--focus', 'catalog']), HIST('hist_index', 60, 600, ['--focus', 'index'])],
+        'assumptions': ['field names free of ";"'],
+    },
+    'C15': {
+        'streams': [{'name': 'cursor', 'quick': 40, 'thorough': 600}, {'name': 'hist_be', 'cmd': 'hist', 'quick': 40, 'thorough': 400, 'args': ['--backend', 'bbolt,badger,badgerdisk']}],
+        'assumptions': ['the libraries behind the adapters (bbolt Cursor.Seek/Next/Prev/Last, badger Iterator) are modelled by their documented cursor semantics; the empty seek key is excluded (badger documents it as rewind; clover never seeks it)'],
+    },
     'C16': {
         'streams': [{'name': 'c16', 'quick': 400, 'thorough': 6000}],
         'assumptions': ['literal-kind invariance under cmp_dom3 (no NaN; big integers not mixed with floats)'],
+    },
+    'C17': {
+        'streams': [{'name': 'idx', 'quick': 10, 'thorough': 150, 'args': ['--backend', 'all']}],
+        'assumptions': ['key_dom on indexed values and bounds; ranges with at least one non-nil bound plus the nil-only range; an INCLUDED nil bound is read as the value nil (as the code does), an excluded one as unbounded'],
     },
     'C18': {
         'streams': [{'name': 'c18', 'quick': 6, 'thorough': 80}],
         'assumptions': ['Document.Unmarshal (encoding/json with struct tags) is not modelled: covered by the harness only'],
     },
+    'C19': {
+        'streams': [{'name': 'json', 'quick': 12, 'thorough': 150, 'args': ['--backend', 'all']}],
+        'assumptions': ['partial: encoding/json text layer is an inverse pair (contract); the theorems cover the JSON typing function and the transaction structure of import/export'],
+    },
+    'C20': {
+        'streams': [HIST('hist', 100, 1200), HIST('hist_catalog', 50, 500, ['--focus', 'catalog']), HIST('hist_reopen', 20, 200, ['--backend', 'bbolt,badgerdisk', '--focus', 'reopen'])],
+        'assumptions': ['safety-only: the model is total and returns a declared result class for every operation; only panic sites the transcription makes explicit are covered by the theorem, the rest by recover() and deadlines around every public call in every stream'],
+    },
 }
 
 NOTES = {
+    'C01': {'technique': 'Coq proof: scans feed exactly the stored documents that pass the criteria; planner range soundness; refinement of FindAll to the abstract database + history differential on both backends'},
+    'C02': {'technique': 'Coq proof of planner soundness (negation push-down, range derivation, intersection) and index-order = value order + twin-collection differential over seven index configurations'},
+    'C03': {'technique': 'Coq proof of the bulk rewrite loop against the abstract selection semantics + scale runs with invocation counting and raw key audits'},
     'C04': {'technique': 'Coq proof that every write body commits last and errors propagate (no catch) + exhaustive store-call fault enumeration against the implementation on both backends'},
     'C05': {'technique': 'Coq proof of crash atomicity of single-transaction operations (fault simulation lemma) + interruption at every store call on on-disk bbolt, SIGKILL runs, close/reopen histories'},
+    'C06': {'technique': 'Coq refinement invariant R (store = what the abstract database denotes) preserved by the operations + raw key-space comparison after every operation of generated histories'},
+    'C07': {'technique': 'Coq proof of linearizability of the single-writer/snapshot-reader transaction discipline for any sequential spec + concurrent histories checked by a linearizability search and the race detector'},
+    'C08': {'technique': 'Coq proof: sort node output is a sorted permutation, skip/limit node is exactly the window, builder option laws + sort-focused history differential with key-tuple sequences'},
+    'C09': {'technique': 'Coq proof that Count/Exists/FindFirst/ForEach are functions of the FindAll sequence + direct agreement oracles and query-object snapshots on the implementation'},
     'C10': {'technique': 'Coq proof (nested induction on values; composition laws for the byte encoders) + exhaustive pair/triple sweep of a boundary pool against the implementation'},
     'C11': {'technique': 'Coq proof of decode(encode d) = d on the wire model + read-back differential on both backends before/after reopen'},
+    'C12': {'technique': 'Coq refinement of Insert/UpdateById to the abstract database (unique ids, id immutability, FindById returns its own id) + id-reuse history differential'},
+    'C13': {'technique': 'Coq proof of the key algebra (prefix-related names never collide) and refinement of the catalog operations + catalog-focused history differential with raw key dumps'},
+    'C14': {'technique': 'Coq proof of index-prefix exactness (x / xy, n / n.a) and catalog refinement + history differential with sibling indexes'},
+    'C15': {'technique': 'Coq proof that both cursor adapters meet the ordered-map cursor contract + store-level differential of bbolt / badger (memory, disk) and identical histories on all backends'},
     'C16': {'technique': 'Coq proof of the Boolean/operator/literal laws of the criteria evaluator + law-pair and model differential on Satisfy'},
+    'C17': {'technique': 'Coq proof that a range scan visits exactly the in-range entries in order (both directions, all bound kinds) and of the range algebra + direct RangeIndex differential on both backends'},
     'C18': {'technique': 'Coq proof of canonicity/idempotence/struct-tag/path laws of the Normalize model + reflect-built Go values differential'},
+    'C19': {'technique': 'Coq proof of the JSON typing laws and of import/export transaction structure + export/import round trips and failure paths on both backends'},
+    'C20': {'technique': 'Coq proof that every operation of the total model returns a declared result class in every state + recover() and deadlines around every public call of every stream'},
 }
 
 # properties not (yet) claimed: reason
-NOT_APPLICABLE = {
-    'C01': 'check under construction in this session (history correspondence exists; theorems pending)',
-    'C02': 'check under construction in this session', 'C03': 'check under construction in this session',
-    'C06': 'check under construction in this session', 'C07': 'check under construction in this session',
-    'C08': 'check under construction in this session', 'C09': 'check under construction in this session',
-    'C12': 'check under construction in this session', 'C13': 'check under construction in this session',
-    'C14': 'check under construction in this session', 'C15': 'check under construction in this session',
-    'C17': 'check under construction in this session', 'C19': 'check under construction in this session',
-    'C20': 'check under construction in this session',
-}
+NOT_APPLICABLE = {}
